@@ -296,6 +296,28 @@ export async function run(ctx) {
     }
   };
   for await (const item of corpus(ctx, { label: "C03", count: nProgs, features: FEATURES })) await judgeItem(item);
+  // one program per repaired defect, with the value that showed it
+  if (ctx.shard === 3 % ctx.of) {
+    const PROBES = [
+      { id: "tuple-slot-missing-from-the-input", text: "type X = [number, string | undefined];", values: [[1], [1, undefined], [1, "s"]] },
+      { id: "tuple-null-slot-missing", text: "type X = [number, null];", values: [[1], [1, null]] },
+      { id: "intersection-members-project-one-property", text: "type T3 = { name?: { items?: string[] } };\ntype T2 = { name: { kind: string } };\ntype X = T3 & T2;", values: [{ name: { kind: "k", items: ["a"] } }, { name: { kind: "k" } }] },
+      { id: "sorted-keys-named-like-prototype-members", text: "type X = Record<string, any>;", values: [{ constructor: {}, toString: 1, b: 2 }, { hasOwnProperty: null }] },
+      { id: "optional-key-named-like-a-prototype-member", text: "type X = { toString?: string; a: number };", values: [{ a: 1 }, Object.assign(Object.create(null), { a: 1 }), { a: 1, toString: "s" }] },
+      { id: "intersection-of-maps", text: "type X = { m: Map<string, { a: number }> } & { m: Map<string, { b: number }> };", values: [{ m: new Map([["k", { a: 1, b: 2 }]]) }] },
+    ];
+    for (const p of PROBES) {
+      const r = await compileText(ctx, `${p.text}\nexport const Parsers = parse.buildParsers<{ X: X }>();\n`);
+      if (!r.parsers) throw new Error("C03 probe does not compile: " + p.id);
+      for (const v of p.values)
+        for (const o of OPTION_SETS) {
+          const f = checkTriple(r.parsers.X, "X", v, o, null, null);
+          ctx.judged();
+          ctx.count("probes");
+          if (f) ctx.violation({ signature: `${f.clause}|probe:${p.id}|${optKey(o)}`, clause: f.clause, detail: `${f.detail} :: ${p.text} on ${show(v)}`, replay: { kind: "triple", text: `${p.text}\nexport const Parsers = parse.buildParsers<{ X: X }>();\n`, parser: "X", value: toEjson(v), options: o } });
+        }
+    }
+  }
   // very large containers (mostly of wrong items): the three entry points still agree and none throws
   if (ctx.shard === 2 % ctx.of) {
     const { bulkValues, BULK_PROGRAM } = await import("../gen/valgen.mjs");
